@@ -28,6 +28,13 @@ type Scenario struct {
 	Family string
 	// Setup builds the environment single-threaded (hooks are pass-through, virtual clock on).
 	Setup func() any
+	// Prefix, when set, runs single-threaded right after Setup and before the threads start: a
+	// SEQUENTIAL PREFIX operation (an earlier request) that leaves the instance in a non-initial
+	// state -- pooled objects, filled caches, lazily built globals. It is NOT run for the
+	// sequential references of the differential oracle: each thread's observable must equal its
+	// result alone on a FRESH instance, so state left behind by the earlier operation must not
+	// show in a later one either.
+	Prefix func(env any)
 	// Threads are the thread bodies. The returned observable must be JSON-encodable and must
 	// not contain anything the property allows to differ between runs (error IDs, addresses).
 	Threads []func(env any) any
@@ -38,7 +45,7 @@ type Scenario struct {
 	// sampler): the differential per-thread oracle is then off and Check decides.
 	Shared bool
 	// DiffClass, when set, classifies HOW an observable differs from its sequential reference
-	// (e.g. "response+client"); the class becomes part of the differential signature.
+	// (e.g. the first deviating stage "response"); the class becomes part of the differential signature.
 	DiffClass func(got, want string) string
 	// Check is evaluated single-threaded after every complete schedule. It returns "" when
 	// the invariant holds, otherwise "class: details" (the class goes into the signature).
